@@ -389,7 +389,11 @@ func genC09(tier string) []Scenario {
 		for _, firstStop := range []bool{false, true} {
 			firstStop := firstStop
 			c := c
-			add(batchScn{name: fmt.Sprintf("stop-reconfigured-between-runs n=3 c=%d first-run-stop=%v", c, firstStop), n: 3, c: c, stop: firstStop, budget: 1, yield: c > 0, execMenu: okOrErrMenu, bound: 0, runs: 2,
+			nn := 3
+			if c > 0 && !th {
+				nn = 2
+			}
+			add(batchScn{name: fmt.Sprintf("stop-reconfigured-between-runs n=%d c=%d first-run-stop=%v", nn, c, firstStop), n: nn, c: c, stop: firstStop, budget: 1, yield: c > 0, execMenu: okOrErrMenu, bound: 0, runs: 2,
 				reconf: func(nb *flyt.BatchNodeBuilder, run int) (bool, int) {
 					nb.WithBatchErrorHandling(firstStop) // continueOnError = firstStop  =>  stop = !firstStop
 					return !firstStop, c
@@ -515,8 +519,12 @@ func genC11(tier string) []Scenario {
 	// a recovering fallback must not turn never-executed items into successes
 	for _, c := range []int{0, 2} {
 		for _, stop := range []bool{false, true} {
-			add(batchScn{name: fmt.Sprintf("cancel-with-fallback n=3 c=%d stop=%v budget=2", c, stop), n: 3, c: c, stop: stop, budget: 2, fb: true, yield: c > 0, execMenu: okOrErrMenu,
-				fbMenu: func(i int) []answer { return []answer{{val: 2000 + i}} }, bound: 1, cancel: cancelSpec{kind: 1, lazy: true}})
+			nn, bb := 3, 1
+			if c > 0 && !th {
+				nn, bb = 3, 0
+			}
+			add(batchScn{name: fmt.Sprintf("cancel-with-fallback n=%d c=%d stop=%v budget=2", nn, c, stop), n: nn, c: c, stop: stop, budget: 2, fb: true, yield: c > 0, execMenu: okOrErrMenu,
+				fbMenu: func(i int) []answer { return []answer{{val: 2000 + i}} }, bound: bb, cancel: cancelSpec{kind: 1, lazy: true}})
 			add(batchScn{name: fmt.Sprintf("cancel-with-fallback n=3 c=%d stop=%v before-run", c, stop), n: 3, c: c, stop: stop, budget: 2, fb: true, yield: c > 0, execMenu: okOrErrMenu,
 				fbMenu: func(i int) []answer { return []answer{{val: 2000 + i}} }, bound: 1, cancel: cancelSpec{kind: 1, before: true}})
 		}
